@@ -10,7 +10,6 @@ import (
 	"github.com/scrapli/scrapligo/driver/network"
 	"github.com/scrapli/scrapligo/driver/options"
 	"github.com/scrapli/scrapligo/platform"
-	"github.com/scrapli/scrapligo/transport"
 	"github.com/scrapli/scrapligo/util"
 	"gopkg.in/yaml.v3"
 
@@ -29,6 +28,10 @@ type FaultCase struct {
 	Fault  string     `json:"fault"` // none | eof | err | write
 	At     int        `json:"at"`    // eof/err: the transport delivers exactly this many bytes; write: this write (1-based) and later ones fail
 	Seg    devsim.Seg `json:"seg"`
+	// Variant, FailedWhen (refusal family, Fault "none"): how the device treats the escalation
+	// (rejects | invalid | refuses) and the driver's failed-when-contains list.
+	Variant    string   `json:"variant,omitempty"`
+	FailedWhen []string `json:"failed_when,omitempty"`
 }
 
 var faultConfigs = []string{"net-on-open", "net-on-close", "plat-on-open", "plat-on-close", "gen-on-open", "gen-on-close", "direct",
@@ -68,7 +71,7 @@ func loginDialogue(fc *FaultCase, c *Case) c10.Dialogue {
 	return d
 }
 
-func hookYAML(onOpen bool) []byte {
+func hookYAML(onOpen bool, failedWhen []string) []byte {
 	lv := map[string]interface{}{}
 	for k, l := range privLevels() {
 		lv[k] = map[string]interface{}{"name": l.Name, "pattern": l.Pattern, "not-contains": []string{}, "previous-priv": l.PreviousPriv,
@@ -77,6 +80,9 @@ func hookYAML(onOpen bool) []byte {
 	ops := []map[string]interface{}{{"operation": "acquire-priv", "target": "privilege-exec"}}
 	def := map[string]interface{}{"driver-type": "network", "privilege-levels": lv, "default-desired-privilege-level": "exec",
 		"options": []map[string]interface{}{{"option": "timeout-ops", "value": 2.5}}}
+	if len(failedWhen) > 0 {
+		def["failed-when-contains"] = failedWhen
+	}
 	if onOpen {
 		def["network-on-open"] = ops
 	} else {
@@ -138,11 +144,22 @@ func runFaultCase(c *Case, m *Monitor) faultRun {
 		fr.stream, fr.writes = len(conn.Stream()), conn.Writes()
 		return fr
 	}
-	dev := escDevice(fc.Host, "\r\n", "asks", c.Secondary, "show x!")
+	variant, deviceSecret := "asks", c.Secondary
+	if fc.Variant != "" {
+		variant = fc.Variant
+		fr.s.kind = "refusal-" + fc.Config + "-" + fc.Variant
+		if variant == "rejects" {
+			deviceSecret = "device-side-" + c.Secondary[:4]
+		}
+	}
+	dev := escDevice(fc.Host, "\r\n", variant, deviceSecret, "show x!")
 	conn := devsim.NewConn(dev, faultCfg(fc, ""))
 	defer conn.Abandon()
 	base := []util.Option{options.WithCustomTransport(conn), options.WithAuthSecondary(c.Secondary), options.WithTimeoutOps(2500 * time.Millisecond)}
 	base = append(base, logOpts...)
+	if len(fc.FailedWhen) > 0 && fc.Config[:4] != "plat" {
+		base = append(base, options.WithFailedWhenContains(fc.FailedWhen))
+	}
 	netHook := func(d *network.Driver) error { return d.AcquirePriv("privilege-exec") }
 	genHook := func(d *generic.Driver) error {
 		_, err := d.Channel.SendInteractive([]*channel.SendInteractiveEvent{
@@ -167,7 +184,7 @@ func runFaultCase(c *Case, m *Monitor) faultRun {
 		}
 		open, closeF = gd.Open, gd.Close
 	case "plat-on-open", "plat-on-close":
-		pl, err := platform.NewPlatform(hookYAML(fc.Config == "plat-on-open"), fc.Host, base...)
+		pl, err := platform.NewPlatform(hookYAML(fc.Config == "plat-on-open", fc.FailedWhen), fc.Host, base...)
 		if err != nil {
 			fr.s.outcome = "constructor:" + err.Error()
 			return fr
@@ -252,6 +269,35 @@ func genFaultCases(r *rand.Rand, tier string) []mon.Case {
 		}
 		for w := 1; w <= fr.writes; w++ {
 			add("write", w)
+		}
+	}
+	return out
+}
+
+// genRefusalCases: escalations run from on-open / on-close hooks (network driver built from options
+// and from a platform definition, plus a direct AcquirePriv) against a device that refuses them with
+// output containing one of the driver's failed-when-contains strings: the secret is rejected
+// ("% Access denied"), the escalate command itself is answered with an error ("% Invalid input
+// detected"), or escalation is not possible ("% No password set"). Stock-like and user-extended
+// failure lists, every log level.
+func genRefusalCases(r *rand.Rand) []mon.Case {
+	lists := [][]string{
+		{"% Ambiguous command", "% Incomplete command", "% Invalid input detected", "% Unknown command"},
+		{"% Invalid input detected", "% Access denied", "% No password set", "% Bad secrets"},
+	}
+	var out []mon.Case
+	n := 0
+	for _, cfgName := range []string{"net-on-open", "net-on-close", "plat-on-open", "plat-on-close", "direct"} {
+		for _, variant := range []string{"rejects", "invalid", "refuses"} {
+			for li, list := range lists {
+				for _, level := range []string{"critical", "info", "debug"} {
+					c := Case{Kind: "fault", Level: level, Family: secretFamilies[n%len(secretFamilies)]}
+					c.Secondary = genSecret(r, c.Family)
+					c.Fault = &FaultCase{Config: cfgName, Host: hosts[n%len(hosts)], Fault: "none", Seg: genSeg(r), Variant: variant, FailedWhen: list}
+					out = append(out, mon.MkCase(fmt.Sprintf("c11/refusal/%s/%s/list%d/%s", cfgName, variant, li, level), c))
+					n++
+				}
+			}
 		}
 	}
 	return out
